@@ -228,6 +228,9 @@ def run_case(case):
     # ------------------------------------------------------------ real code
     if case.get("index", 1) % 6 == 0 and case["kind"] == "generic":
         pipeline.run_sibling(desc, solve=True, counters=cnt)
+    if case.get("index", 1) % 6 == 3 and case["kind"] == "generic":
+        if pipeline.run_sibling(desc, solve=True, counters=cnt, mode="swap_grid_kinds"):
+            add("sibling_with_swapped_grid_kinds")
     try:
         model = dsl.build_lcm_model(desc)
         f, _ = pipeline.get_lcm_function(model, "solve", jit=True)
